@@ -334,7 +334,7 @@ func (ei *EngineInfo) alwaysInvalidates(fn *types.Func) bool {
 
 // Frozen exceptions of E4a: construct -> reason.
 var e4aExceptions = map[string]string{
-	"netpol/eval.(*PolicyEngine).AddPodByNameAndNamespace writes podsMap": "the inserted ingress-controller pod is a fake pod without owner; keyPerConnection yields no key for a peer without owner, so nothing about it is ever cached; the function is on the list path only",
+	"netpol/eval.(*PolicyEngine).AddPodByNameAndNamespace writes podsMap":                                                                                   "the inserted ingress-controller pod is a fake pod without owner; keyPerConnection yields no key for a peer without owner, so nothing about it is ever cached; the function is on the list path only",
 	"netpol/eval.(*PolicyEngine).insertNetworkPolicy writes netpolsMap, exit `return ‹result of GetPolicyRulesSelectorsAndUpdateExposureClusterWideConns›`": "infeasible exit: the exposure pre-scan evaluates the rule ports with dst == nil, and with a nil dst neither ruleConnections nor getPortsRange has an error return (rule E4a-scan checks exactly that); no input reaches this return, so no failing history can be shown",
 }
 
@@ -632,7 +632,7 @@ func SortedTypestate(p *core.Program, r *core.Report) {
 		ast.Inspect(fd.Decl.Body, func(n ast.Node) bool {
 			if call, ok := n.(*ast.CallExpr); ok && len(call.Args) > 0 {
 				if fn := core.Callee(info, call); fn != nil && fn.Pkg() != nil && (fn.Pkg().Path() == "sort" || fn.Pkg().Path() == "slices") && strings.HasPrefix(fn.Name(), "S") {
-					if f2 := core.FieldOf(info, call.Args[0]); f2 == fld {
+					if f2 := FieldBehind(fd, call.Args[0]); f2 == fld {
 						sorters[fd.Obj] = true
 					}
 				}
